@@ -4,7 +4,7 @@ import Skc.Model.Heap
 
 request  `{"op":"heap", "kinds":["freshCopy"|"memoThenCopy"|"memoShared", …]   -- one per accessor instance
            "guarded":[bool, …], "args":[[int,…],…]                            -- arrays given to the constructor
-           "keep": null | j                                                   -- mutant: constructor keeps argument j
+           "keep": [j, …]                                                     -- constructor arguments the matrix keeps (not copied)
            "ops":[{"read":k} | {"write":src,"i":pos,"raw":bool} | {"call":true} | {"mutarg":a,"i":pos}]}`
 reply    `{"initial":[answers…], "steps":[{"applied":bool, "ref":r|null, "answers":[[int…]…], "changed":[k…]}]}`
 where `answers` lists the answer of every accessor after the step and `changed` the accessors whose answer
@@ -44,12 +44,10 @@ def opHeap (j : Json) : Except String Json := do
   let guarded ← listOf asBool (fieldD j "guarded" (.arr #[]))
   let args ← listOf (listOf asInt) (← field j "args")
   let acts ← listOf parseAct (← field j "ops")
-  let keep ← optOf asNat (fieldD j "keep" .null)
+  let keep ← listOf asNat (fieldD j "keep" (.arr #[]))
   let n := kinds.length
   let T : Table := { compute := heapCompute, kind := fun k => kinds.getD k .freshCopy }
-  let w₀ := match keep with
-    | none => construct args
-    | some a => constructKeeping a args
+  let w₀ := if keep.isEmpty then construct args else constructKeeping keep args
   let init := answers T n w₀
   let tr := runActs T (fun k => guarded.getD k false) n w₀ acts
   let stepJson (o : StepOut) : Json :=
